@@ -112,7 +112,13 @@ pub fn terminals(lang: &Lang) -> Option<Vec<Term>> {
     let rules = g["rules"].as_object().unwrap();
     let mut strings = Vec::new();
     let mut named = Vec::new();
-    for (name, body) in rules {
+    for (idx, (name, body)) in rules.iter().enumerate() {
+        // `extract_tokens` does not turn the start rule or a hidden rule into the token of its string:
+        // the rule stays a non-terminal over the anonymous string (TsVerif.C03.tokenView)
+        if body["type"] == "STRING" && (idx == 0 || name.starts_with('_')) {
+            collect_strings(body, &mut strings);
+            continue;
+        }
         if is_single_terminal(body) {
             let text = match body["type"].as_str().unwrap() {
                 "STRING" => body["value"].as_str().unwrap().to_string(),
